@@ -25,7 +25,7 @@ ALPHABET = {
     "name": ["p", "my_proj", "DeutNet"],
     "description": ["d", "two words", ""],
     "elements": ["", "e,H,He,C,O", "e, H, He , C, O", "H,C"],
-    "pseudo-elements": ["", "CR", "CR,Photon,CRP", "CR, Photon"],
+    "pseudo-elements": ["", "CR", "CR,Photon,CRP", "CR, Photon", "CR,\\*"],  # the last: the escaped entry of the default list the prompt offers
     "element-replacement": ["", "HE:He", "HE:He,E:e", "HE : He"],
     "surface-prefix": ["#", "G"],
     "bulk-prefix": ["@", "B", "@@"],
